@@ -140,6 +140,17 @@ Definition run_tag (repo : list snap) (sel : list bool) (setL addL remL : list (
     Done (map (fun p : snap * bool => if snd p then snap_fate (fst p) setT addT remT else Same)
               (combine repo sel)).
 
+(* Backend faults: [fail] marks the snapshots whose rewritten file cannot be saved.  changeTags
+   returns the SaveSnapshot error BEFORE removing the old file; runTag prints "unable to modify the
+   tags ... ignoring" and goes on (exit 0).  So such a snapshot simply stays as it is. *)
+Definition apply_fail (fail : list bool) (fs : list fate) : list fate :=
+  map (fun p : bool * fate => if fst p then Same else snd p) (combine fail fs).
+Definition run_tag_f (repo : list snap) (sel fail : list bool) (setL addL remL : list (list tag)) : outcome :=
+  match run_tag repo sel setL addL remL with
+  | Done fs => Done (apply_fail fail fs)
+  | o => o
+  end.
+
 (* ------------------------------------------------------------------ comparison helpers *)
 Fixpoint remove1 (t : tag) (l : list tag) : option (list tag) :=
   match l with
@@ -181,7 +192,10 @@ Inductive case :=
 | KChange (sn : snap) (setT addT remT : list tag) (obs : fate)
 | KRun (repo : list snap) (sel : list bool) (setL addL remL : list (list tag))
        (extra : nat)           (* snapshots afterwards that continue no snapshot of [repo] *)
-       (obs : outcome).
+       (obs : outcome)
+| KRunF (repo : list snap) (sel : list bool) (setL addL remL : list (list tag))
+        (nfail : nat)          (* snapshot-file Saves the backend was made to refuse during the run *)
+        (extra : nat) (obs : outcome).
 
 (* first failing clause for a run: 0 = all clauses hold *)
 Fixpoint run_code (repo : list snap) (sel : list bool) (fs : list fate)
@@ -198,6 +212,32 @@ Fixpoint run_code (repo : list snap) (sel : list bool) (fs : list fate)
              | Some t => if negb (tags_ok (s_tags sn) t setL addL remL) then 4
                          else if negb (fate_orig_ok sn f) then 5
                          else run_code repo' sel' fs' setL addL remL
+             end
+      end
+  | _, _, _ => 2
+  end.
+
+(* with refused Saves: at most [budget] selected snapshots may stay untouched although their tags
+   should have changed; nothing may be lost, everything else as without faults *)
+Fixpoint run_code_f (repo : list snap) (sel : list bool) (fs : list fate)
+         (setL addL remL : list (list tag)) (budget : nat) : nat :=
+  match repo, sel, fs with
+  | [], [], [] => 0
+  | sn :: repo', s :: sel', f :: fs' =>
+      match f with
+      | Lost => 2
+      | _ =>
+        if negb s then match f with Same => run_code_f repo' sel' fs' setL addL remL budget | _ => 3 end
+        else match fate_tags sn f with
+             | None => 2
+             | Some t =>
+                 if negb (tags_ok (s_tags sn) t setL addL remL) then
+                   match f, budget with
+                   | Same, S b => run_code_f repo' sel' fs' setL addL remL b
+                   | _, _ => 4
+                   end
+                 else if negb (fate_orig_ok sn f) then 5
+                 else run_code_f repo' sel' fs' setL addL remL budget
              end
       end
   | _, _, _ => 2
@@ -244,6 +284,15 @@ Definition oracle_code (c : case) : nat :=
                         end
            | _ => 0
            end
+  | KRunF repo sel setL addL remL nfail extra obs =>
+      if negb (opts_outcome_ok setL addL remL obs) then 7
+      else match obs with
+           | Done fs => match extra with
+                        | O => run_code_f repo sel fs setL addL remL nfail
+                        | _ => 2
+                        end
+           | _ => 0
+           end
   end.
 
 Definition check_C25 (c : case) : bool := Nat.eqb (oracle_code c) 0.
@@ -263,6 +312,19 @@ Definition outcome_eqb (mode_set : bool) (a b : outcome) : bool :=
   | _, _ => false
   end.
 
+(* fates agree with the fault-free model except for at most [budget] snapshots left untouched *)
+Fixpoint agree_f (mode_set : bool) (budget : nat) (obs model : list fate) : bool :=
+  match obs, model with
+  | [], [] => true
+  | a :: obs', b :: model' =>
+      if fate_eqb mode_set a b then agree_f mode_set budget obs' model'
+      else match a, b, budget with
+           | Same, Replaced _ _, S n => agree_f mode_set n obs' model'
+           | _, _, _ => false
+           end
+  | _, _ => false
+  end.
+
 (* implementation observable = model output (tag order is compared as a multiset in add/remove
    mode: the order produced by swap-remove is not promised) *)
 Definition model_agrees (c : case) : bool :=
@@ -276,6 +338,12 @@ Definition model_agrees (c : case) : bool :=
   | KChange sn setT addT remT obs => fate_eqb (negb (is_nil setT)) obs (snap_fate sn setT addT remT)
   | KRun repo sel setL addL remL extra obs =>
       andb (Nat.eqb extra 0) (outcome_eqb (negb (is_nil setL)) obs (run_tag repo sel setL addL remL))
+  | KRunF repo sel setL addL remL nfail extra obs =>
+      andb (Nat.eqb extra 0)
+           match obs, run_tag repo sel setL addL remL with
+           | Done a, Done b => agree_f (negb (is_nil setL)) nfail a b
+           | a, b => outcome_eqb (negb (is_nil setL)) a b
+           end
   end.
 
 Definition check_case (c : case) : nat :=
